@@ -10,6 +10,8 @@ import OdeVerif.Model.Spikes
 import OdeVerif.Model.AnalyticIntegrator
 import OdeVerif.Model.Graph
 import OdeVerif.Model.MixedIntegrator
+import OdeVerif.Model.Terms
+import OdeVerif.Model.Shapes
 
 open Lean
 
@@ -282,6 +284,55 @@ def opMiRun (j : Json) : Except String Json := do
       ("t_end", Json.str (bitsOfFloat s.t)),
       ("applied", Json.arr (s.applied.reverse.map (fun e => Json.arr #[Json.str (bitsOfFloat e.1), Json.str (bitsOfFloat e.2.1), Json.num (JsonNumber.fromNat e.2.2)])).toArray)])
 
+/-! ### C02 / C04 / C10: split on terms, assembly on values -/
+
+def parseTerm (j : Json) : Except String Terms.Term := do
+  let d ← getArr j "direct"
+  let direct ← d.toList.mapM (fun e => do
+    let a ← e.getArr?
+    match a.toList with
+    | [s, ex] => do pure ((← fromJson? s : Nat), (← fromJson? ex : Int))
+    | _ => .error "bad direct")
+  pure { direct := direct, inside := (← j.getObjValAs? (List Nat) "inside") }
+
+def bucketJson : Terms.Bucket → Json
+  | .const => Json.str "c"
+  | .lin j => Json.arr #[Json.str "l", Json.num (JsonNumber.fromNat j)]
+  | .nonlin => Json.str "n"
+
+def opSplit (j : Json) : Except String Json := do
+  let params ← j.getObjValAs? (List Nat) "params"
+  let xs ← j.getObjValAs? (List Nat) "xs"
+  let ts ← (← getArr j "terms").toList.mapM parseTerm
+  pure (Json.mkObj [("buckets", Json.arr ((Terms.split params xs ts).map (fun p => bucketJson p.2)).toArray)])
+
+def opParamSyms (j : Json) : Except String Json := do
+  let r := Terms.parameterSymbols (← j.getObjValAs? (List Nat) "all_free") (← j.getObjValAs? (List Nat) "vars") (← getNat j "time")
+  pure (Json.mkObj [("params", Json.arr (r.map (fun (i : Nat) => Json.num (JsonNumber.fromNat i))).toArray)])
+
+def getRatMat (j : Json) (k : String) : Except String (List (List Rat)) := do
+  let rows ← getArr j k
+  rows.toList.mapM (fun r => do
+    let a ← r.getArr?
+    a.toList.mapM (fun x => do ratOfString (← x.getStr?)))
+
+instance : Inhabited Rat := ⟨0⟩
+
+def opSubsys (j : Json) : Except String Json := do
+  let A ← getRatMat j "A"
+  let b ← getRats j "b"; let c ← getRats j "c"; let x ← getRats j "x"
+  let keepL ← j.getObjValAs? (List Nat) "keep"
+  let keep : Nat → Bool := fun i => keepL.contains i
+  let rows := keepL.map (fun i => Json.mkObj [
+    ("i", Json.num (JsonNumber.fromNat i)),
+    ("c_sub", Json.str (stringOfRat (Shapes.subC A c x keep i))),
+    ("row_value", Json.str (stringOfRat (Shapes.subRowValue A b c x keep i))),
+    ("full_row_value", Json.str (stringOfRat (Shapes.rowValue (A.getD i []) x (b.getD i 0) (c.getD i 0)))),
+    ("numeric_rhs", Json.str (stringOfRat (Shapes.numericRhs ((List.range x.length).filter keep |>.map (fun jj => (A.getD i []).getD jj 0))
+                                             ((List.range x.length).filter keep |>.map (fun jj => x.getD jj 0)) (b.getD i 0) (Shapes.subC A c x keep i)))),
+    ("jac_expr", Json.str (stringOfRat (Shapes.jacobianExpr (A.getD i []) x (c.getD i 0))))])
+  pure (Json.mkObj [("rows", Json.arr rows.toArray)])
+
 def dispatch (op : String) (j : Json) : Json :=
   match op with
   | "ping" => Json.mkObj [("pong", j)]
@@ -296,6 +347,9 @@ def dispatch (op : String) (j : Json) : Json :=
   | "ai-run" => run (opAiRun j)
   | "verdict" => run (opVerdict j)
   | "mi-run" => run (opMiRun j)
+  | "split" => run (opSplit j)
+  | "param-syms" => run (opParamSyms j)
+  | "subsys" => run (opSubsys j)
   | _ => jerr ("unknown-op: " ++ op)
 
 end OdeVerif.Driver
